@@ -277,7 +277,11 @@ Proof.
   { cbn [wfb is_nil negb last_ok last nonblank forallb elem_ok andb]. rewrite Ha3, Hb3.
     destruct b; [congruence|reflexivity]. }
   destruct (list_roundtrip _ Hw) as [txt [Hj Hs]].
-  cbn in Hj. rewrite !escape_string_one_pass, (escape_plain a Ha2), (escape_plain b Hb2) in Hj.
+  assert (Hl : lastne [a; b]).
+  { intros _. cbn [last]. exact Hb0. }
+  change (Lst [Str a; Str b]) with (Lst (map Str [a; b])) in Hj.
+  rewrite (join_strs 0 sep0 [a; b] eq_refl Hl) in Hj. cbn [map joinP join_char] in Hj.
+  rewrite (escape_plain a Ha2), (escape_plain b Hb2) in Hj.
   injection Hj as <-. unfold cell_parse.
   assert (Hnw : no_ws (a ++ [sep0] ++ b) = true).
   { unfold no_ws. rewrite !forallb_app. unfold no_ws in Ha1, Hb1. rewrite Ha1, Hb1. cbn [forallb app]. rewrite ws_sep0. reflexivity. }
